@@ -21,6 +21,8 @@ structure AInv (s : St) : Prop where
   map_ok : ∀ u t, absMap s.map u = some t → (s.thr t).unit = .user u
   bridge : ∀ u p, u ≠ s.map.nul → liveL s.map.nul s.log u p = live s u p
   log_ok : LogOK s.map.nul s.log
+  cnt : ∀ u, u ≠ s.map.nul → crT s.log u = frT s.log u + (if (absMap s.map u).isSome then 1 else 0)
+  count_ok : CountOK s.map.nul s.log
 
 theorem ainv_init (exp : Nat) (z : UInt64) (isb : Nat → Bool) : AInv (St.init exp z isb) := by
   constructor
@@ -30,6 +32,40 @@ theorem ainv_init (exp : Nat) (z : UInt64) (isb : Nat → Bool) : AInv (St.init 
   · intro u t h; simp [St.init, absMap_empty] at h
   · intro u p _; simp [St.init, liveL, live, absMap_empty]
   · simp [St.init, LogOK]
+  · intro u _; simp [St.init, crT, frT, absMap_empty]
+  · simp [St.init, CountOK]
+
+/-- in a well-formed table a non-NULL handle is held by at most one element: exactly when it is mapped -/
+theorem countU_nodup (z : UInt64) (c : List Entry) (u : UInt64) (hu : u ≠ z) (hnd : (units z c).Nodup) :
+    (c.filter (fun e => e.unit == u)).length = if u ∈ units z c then 1 else 0 := by
+  induction c with
+  | nil => simp [units]
+  | cons e r ih =>
+    rw [units_cons z] at hnd ⊢
+    by_cases hez : e.unit = z
+    · simp only [hez, if_true] at hnd ⊢
+      have : ¬ z = u := fun h => hu h.symm
+      simp [List.filter_cons, this, ih hnd]
+    · simp only [hez, if_false, List.nodup_cons] at hnd ⊢
+      by_cases heu : e.unit = u
+      · subst heu
+        have := ih hnd.2
+        simp only [hnd.1, if_false] at this
+        simp [List.filter_cons, this]
+      · have h2 : ¬ u = e.unit := fun h => heu h.symm
+        simp [List.filter_cons, heu, h2, ih hnd.2]
+
+theorem tblCount_wf (m : UM) (u : UInt64) (hw : WF m) (hu : u ≠ m.nul) :
+    tblCount m u = if (absMap m u).isSome then 1 else 0 := by
+  simp only [tblCount]
+  rw [countU_nodup m.nul _ u hu (hw.nodup _)]
+  by_cases hm : u ∈ units m.nul (m.b (hashIndex m.exp u))
+  · have : absMap m u ≠ none := fun h => (absMap_none_iff m u hu).mp h hm
+    cases ha : absMap m u with
+    | none => exact absurd ha this
+    | some t => simp [hm]
+  · have := (absMap_none_iff m u hu).mpr hm
+    simp [hm, this]
 
 def oldIs (old : Option (UInt64 × Nat)) (x : UInt64) : Bool :=
   match old with
@@ -43,12 +79,12 @@ def oldMatch (old : Option (UInt64 × Nat)) (x : UInt64) (p : Nat) : Bool :=
 
 def oldEvs (old : Option (UInt64 × Nat)) : List Ev :=
   match old with
-  | some (u, op) => [.free op u]
+  | some (u, op) => [.free op u 0]
   | none => []
 
 def newEvs (t : Nat) (new : Option (UInt64 × Nat)) : List Ev :=
   match new with
-  | some (nu, p) => [.create p t nu]
+  | some (nu, p) => [.create p t nu 0]
   | none => []
 
 /-- the general shape of a successful (re)association of work unit `t`: optionally drop its
@@ -120,7 +156,7 @@ theorem ainv_move (s s' : St) (t : Nat) (old new : Option (UInt64 × Nat)) (th' 
         intro hx; subst hx; rw [hn] at this; cases this
   have hthr_t : s'.thr t = th' := by rw [hthr]; simp [updT]
   have hthr_o : ∀ t'', t'' ≠ t → s'.thr t'' = s.thr t'' := by intro t'' h; rw [hthr]; simp [updT, h]
-  refine ⟨hwf, ?_, ?_, ?_, ?_, ?_⟩
+  refine ⟨hwf, ?_, ?_, ?_, ?_, ?_, ?_, ?_⟩
   · -- bi
     intro t1 t2 h1
     by_cases ht : t1 = t
@@ -199,7 +235,7 @@ theorem ainv_move (s s' : St) (t : Nat) (old new : Option (UInt64 × Nat)) (th' 
             simp [this, h2]
       | some q0 =>
         obtain ⟨u, op⟩ := q0
-        have hsplit : ∀ r : List Ev, liveL s.map.nul (Ev.free op u :: r) x p =
+        have hsplit : ∀ r : List Ev, liveL s.map.nul (Ev.free op u 0 :: r) x p =
             if (u == x && op == p) = true then false else liveL s.map.nul r x p := by
           intro r
           simp only [liveL]
@@ -327,6 +363,103 @@ theorem ainv_move (s s' : St) (t : Nat) (old new : Option (UInt64 × Nat)) (th' 
           rw [hh, h2] at h1; cases h1
         simp only [hne, false_and, if_false]
         exact hfree u op rfl
+  · -- cnt
+    intro x hx0
+    rw [hnul] at hx0
+    have hc := hi.cnt x hx0
+    have hcr : crT (oldEvs old ++ newEvs t new ++ s.log) x = (if oldIs new x = true then 1 else 0) + crT s.log x := by
+      cases old with
+      | none =>
+        cases new with
+        | none => simp [oldEvs, newEvs, oldIs]
+        | some q => obtain ⟨nu, p⟩ := q; simp [oldEvs, newEvs, oldIs, crT]
+      | some q0 =>
+        obtain ⟨u, op⟩ := q0
+        cases new with
+        | none => simp [oldEvs, newEvs, oldIs, crT]
+        | some q => obtain ⟨nu, p⟩ := q; simp [oldEvs, newEvs, oldIs, crT]
+    have hfr : frT (oldEvs old ++ newEvs t new ++ s.log) x = (if oldIs old x = true then 1 else 0) + frT s.log x := by
+      cases old with
+      | none =>
+        cases new with
+        | none => simp [oldEvs, newEvs, oldIs]
+        | some q => obtain ⟨nu, p⟩ := q; simp [oldEvs, newEvs, oldIs, frT]
+      | some q0 =>
+        obtain ⟨u, op⟩ := q0
+        cases new with
+        | none => simp [oldEvs, newEvs, oldIs, frT]
+        | some q => obtain ⟨nu, p⟩ := q; simp [oldEvs, newEvs, oldIs, frT]
+    rw [hlog, hcr, hfr, hmap]
+    cases h1 : oldIs old x with
+    | true =>
+      have h2 : oldIs new x = false := by
+        cases h2 : oldIs new x with
+        | false => rfl
+        | true => have := hnewold x h2; rw [h1] at this; cases this
+      have hax : absMap s.map x = some t := by
+        cases old with
+        | none => simp [oldIs] at h1
+        | some q0 =>
+          obtain ⟨u, op⟩ := q0
+          simp only [oldIs, beq_iff_eq] at h1; subst h1
+          exact (hold' u op rfl).2.2
+      rw [hax] at hc
+      simp only [h2, if_true, Bool.false_eq_true, if_false, Option.isSome_none] at hc ⊢
+      simp at hc; omega
+    | false =>
+      cases h2 : oldIs new x with
+      | true =>
+        have hax : absMap s.map x = none := by
+          cases new with
+          | none => simp [oldIs] at h2
+          | some q =>
+            obtain ⟨nu, p⟩ := q
+            simp only [oldIs, beq_iff_eq] at h2; subst h2
+            exact (hnew' nu p rfl).2.1
+        rw [hax] at hc
+        simp only [if_true, Bool.false_eq_true, if_false, Option.isSome_some] at hc ⊢
+        simp at hc; omega
+      | false =>
+        simp only [Bool.false_eq_true, if_false] at hc ⊢
+        omega
+  · -- count_ok
+    rw [hlog, hnul]
+    have hco := hi.count_ok
+    have hnewc : ∀ nu p, new = some (nu, p) → 0 + frT s.log nu = crT s.log nu := by
+      intro nu p hn
+      obtain ⟨a, b, _, _⟩ := hnew' nu p hn
+      have := hi.cnt nu a
+      rw [b] at this; simp at this; omega
+    have holdc : ∀ u op, old = some (u, op) → frT s.log u + 1 = crT s.log u := by
+      intro u op ho
+      obtain ⟨_, b, c⟩ := hold' u op ho
+      have := hi.cnt u b
+      rw [c] at this; simp at this; omega
+    cases old with
+    | none =>
+      cases new with
+      | none => simpa [oldEvs, newEvs] using hco
+      | some q =>
+        obtain ⟨nu, p⟩ := q
+        simp only [oldEvs, newEvs, List.nil_append, List.cons_append, CountOK]
+        exact ⟨fun _ => hnewc nu p rfl, hco⟩
+    | some q0 =>
+      obtain ⟨u, op⟩ := q0
+      cases new with
+      | none =>
+        simp only [oldEvs, newEvs, List.append_nil, List.cons_append, List.nil_append, CountOK]
+        exact ⟨by have := holdc u op rfl; omega, hco⟩
+      | some q =>
+        obtain ⟨nu, p⟩ := q
+        simp only [oldEvs, newEvs, List.cons_append, List.nil_append, CountOK, crT, frT]
+        have hne : nu ≠ u := by
+          intro hh
+          have h1 := (hnew' nu p rfl).2.1
+          have h2 := (hold' u op rfl).2.2
+          rw [hh, h2] at h1; cases h1
+        refine ⟨?_, fun _ => hnewc nu p rfl, hco⟩
+        simp only [hne, if_false]
+        have := holdc u op rfl; omega
 
 /-! ### the operations -/
 
